@@ -207,6 +207,15 @@ static std::vector<T> boundary(T mn, T mx, bool has_null, T nl)
         v.push_back(std::numeric_limits<T>::min());
         v.push_back(static_cast<T>(-1.5));
     }
+#ifdef C16_EXTRA
+    // thorough tier: pseudo-random bit patterns (for floats this includes NaN payloads, denormals, both signs)
+    unsigned long long x = 0x9E3779B97F4A7C15ULL ^ (static_cast<unsigned long long>(sizeof(T)) << 32) ^ C16_SEED;
+    for(int i = 0; i < C16_EXTRA; i++)
+    {
+        x = x * 6364136223846793005ULL + 1442695040888963407ULL;
+        v.push_back(from_bits<T>(x >> (64 - 8 * sizeof(T))));
+    }
+#endif
     return v;
 }
 
@@ -379,7 +388,8 @@ def main():
     src = make_driver(cases)
     rep.rule("11 primitive types x {built-in required/optional wrapper, schema type without attributes, 2-3 flavours "
              "with explicit min/max(/null) incl. type extremes, INT64_MIN, UINT64_MAX, +-INF, NaN, -0.0, decimal float "
-             "literals, one partially explicit type} = %d types; per type all ordered pairs of a boundary set {min, max, "
+             "literals, one partially explicit type} = %d types; per type all ordered pairs of a boundary set (thorough: plus 24 "
+             "seeded pseudo-random bit patterns per type) {min, max, "
              "null, 0, +-1, lowest, highest, min+-1, max+-1, NaN, -NaN, +-inf, -0.0, denorm, smallest normal}: ==, !=, <, "
              "<=, >, >= (and <=> under C++20/23), value_or, has_value, bool, in_range, default/nullopt construction, "
              "static min/max/null bit patterns. distinct_nontrivial = distinct (type, configuration-independent) cases "
@@ -387,6 +397,8 @@ def main():
     cfgs = configs(rep.tier)
 
     def one(cfg):
+        if rep.tier != "quick":
+            cfg = build.Cfg(cfg.cxx, cfg.std, cfg.mode, cfg.defs + ("C16_EXTRA=24", "C16_SEED=%dULL" % (rep.seed & 0xFFFFFFFF)), cfg.extra)
         ok, exe, out = build.compile_driver(src, cfg, inc_dirs=(gen["dir"],), dep_key=C.sha(xml), name="c16")
         if not ok:
             return cfg, None, out
